@@ -16,7 +16,8 @@ reference string semantics `Spec/Lex.lean`. The model is tied to the code by the
 What is proved here: positions (the line/column the builders report is an exact, invertible function of the offset
 of the pair, and the text of a name/number node is the input slice at that position), the escape arms of string
 decoding, terminal matching, and kernel-checked witnesses of the defects of DESIGN §9 t–v on the model.
-What is NOT proved (see the OPEN block at the end): `∀ A τ, parse (render A τ) = A`; it is carried by K+O.
+`∀ A τ, parse (render A τ) = A` itself is proved in `Props/C07Doc.lean` for executable documents (without `#import` lines)
+and for type-system documents; what is NOT proved is listed in the OPEN block at the end and carried by K+O.
 -/
 namespace NitroVerif.C07
 open NitroVerif.Peg NitroVerif.Build NitroVerif.Gen NitroVerif.Gen.Parts NitroVerif.Spec.Lex NitroVerif
@@ -326,25 +327,50 @@ theorem string_decode for literals with `\uXXXX` / `\u{…}` escapes and for blo
   -- `specEscape` never writes `\u` escapes (every character has a plain or two-character form), so `string_decode`
   -- covers every string VALUE but not every string LITERAL; block strings are returned raw (open finding t).
 theorem parse_render : ∀ A τ, parseModel (render A τ) = A      -- the full document language
-  -- PROVED for EXECUTABLE documents without `#import` lines: `Props/C07Doc.lean` `parse_render_operation_document`
-  -- (+ `_erase`): for every non-empty list of well-formed operations / fragments, every trivia assignment and every choice of
-  -- the `{ … }` shorthand, `parseOp (rDoc τ sh doc) = .ok (wpDoc …)` — the model of `parse_operation_document` (generated
-  -- grammar, model's own depth bounds, `validate_unicode_escapes`, builders) returns the document with the true position of
-  -- every token; and the levels below it: `render_parse_selection`, `render_parse_selection_set`, `render_parse_type_trivia`,
-  -- `render_parse_variable_definition`, `render_parse_executable_definition`.
-  -- Explicit side conditions of those theorems (all decidable): names are valid names, a fragment / spread name is not `on`,
-  -- selection sets are non-empty, values / types are the well-formed ones of the earlier levels; every gap is `Ws` (so: no
-  -- comment whose text begins with `import`, no unterminated comment at the very end of the input); string literals are
-  -- rendered with `specEscape` (no `\u` escapes, no block strings — open finding t: returned raw); between two selections
-  -- (and after `fragment` / its name / `on` / an operation keyword followed by a name) the gap is non-empty.
-  -- NOT proved: (1) `#import` lines (`ext_ImportStatement`): the implicit skip in front of one stops because `COMMENT`'s
-  -- negative lookahead `!ext_ImportStatementContent` SUCCEEDS in matching the import — that needs the whole calculus
-  -- (`RunsK`, the skip lemmas) under negative lookahead, which is only available for lookahead state `.none`;
-  -- (2) TYPE-SYSTEM documents (`parse_render_type_system_document`): ScalarTypeDefinition … InputObjectTypeDefinition,
-  -- extensions, DirectiveDefinition, SchemaDefinition, descriptions — the leaves they need (`Type` with trivia, default
-  -- values, directives, string literals, the generic list / `parts!` lemmas of `Lemmas/ParseDocBase.lean`) are in place.
-  -- Both remain established by K (model = code, 0 disagreements on every generated text, canonical and noisy) + O
-  -- (code = A, structure and positions) in harness/src/bin/c07.rs.
+  -- PROVED (Props/C07Doc.lean) for both entry points, at the strength "every well-formed document, every trivia assignment":
+  --  * EXECUTABLE documents without `#import` lines: `parse_render_operation_document` (+ `_erase`): for every non-empty list
+  --    of well-formed operations / fragments, every trivia assignment and every choice of the `{ … }` shorthand,
+  --    `parseOp (rDoc τ sh doc) = .ok (wpDoc …)` — the model of `parse_operation_document` (generated grammar, the model's own
+  --    depth bounds, `validate_unicode_escapes`, builders) returns the document with the true position of every token; levels
+  --    below it: `render_parse_selection`, `render_parse_selection_set`, `render_parse_type_trivia`,
+  --    `render_parse_variable_definition`, `render_parse_executable_definition`.
+  --  * TYPE-SYSTEM documents, ALL kinds of item: `parse_render_type_system_document` (+ `_erase`): for every non-empty list of
+  --    well-formed SchemaDefinition / Scalar … InputObject TypeDefinition / DirectiveDefinition / SchemaExtension / Scalar …
+  --    InputObject TypeExtension, with descriptions, directives, implements lists, field / argument / input-value / enum-value
+  --    definitions, default values, root operation types, `repeatable`, directive locations:
+  --    `parseTs (rTsDoc τ doc) = .ok (wpTsDoc …)`; every EARLIER alternative of the grammar's ordered choices
+  --    (`TypeSystemDefinition | TypeSystemExtension`, `SchemaDefinition | TypeDefinition | DirectiveDefinition`, the six kinds,
+  --    the 2–3 alternatives of each rule, the 19 literals of the two `DirectiveLocation` rules) is shown to fail; levels below
+  --    it: `render_parse_input_value_definition`, `render_parse_field_definition`, `render_parse_enum_value_definition`,
+  --    `render_parse_type_system_definition`.
+  -- Explicit side conditions of those theorems (all decidable; `WFDef`, `WFTsItem`, `Ws`):
+  --  - names are valid names; a fragment / spread name is not `on`; an enum value is none of `true false null`; selection
+  --    sets are non-empty; values / types are the well-formed ones of the earlier levels;
+  --  - every gap is `Ws` (so: no comment whose text begins with `import`, no unterminated comment at the very end of the input);
+  --  - string literals AND descriptions are rendered with `specEscape` as ordinary strings (no `\u` escapes, no block
+  --    strings — open finding t: returned raw);
+  --  - the rendering never writes the optional leading `&` / `|` of `implements`, union members, directive locations;
+  --  - where two tokens could run together the gap is made non-empty, and CONSERVATIVELY also: between two selections,
+  --    between two items of a type-system document (even after `}`), between two entries of a `{ … }` / `( … )` body of a
+  --    type-system definition;
+  --  - emptiness conditions that mirror the GRAMMAR (the rule has no alternative otherwise): an object type definition has
+  --    fields or directives (`type T` and `type T implements I` alone are rejected by grammar.pest, unlike the
+  --    specification); a union type definition has members (grammar.pest demands `=`); a schema definition has root
+  --    operation types; a schema extension directives or root operation types; an object / interface type extension
+  --    interfaces, directives or fields; a union type extension members or directives; a directive definition at least one
+  --    location, each one of the 19 words; enum / input-object definitions and extensions MAY have no body, scalar
+  --    extensions no directives (the grammar accepts them);
+  --  - one condition that is a limit of the proof, not of the grammar: the bare `interface I` / `extend interface I` (no
+  --    interfaces, no directives, no fields) is excluded (`ImplementsInterfaces?` is shown to fail only on a token that does
+  --    not begin with `i`);
+  --  - `_erase` for type-system documents: every item carries only what its rendering shows (`NormalItem`: a type definition
+  --    or extension only the components of its kind, an extension no description).
+  -- NOT proved: `#import` lines (`ext_ImportStatement`) in executable documents: the implicit skip in front of one stops
+  -- because `COMMENT`'s negative lookahead `!ext_ImportStatementContent` SUCCEEDS in matching the import — that needs the
+  -- whole calculus (`RunsK`, the skip lemmas) under negative lookahead, which is only available for lookahead state
+  -- `.none`; block strings and `\u` escapes in literals; the comments excluded by `Ws`. These remain established by K
+  -- (model = code, 0 disagreements on every generated text, canonical and noisy) + O (code = A, structure and positions) in
+  -- harness/src/bin/c07.rs.
 -/
 
 end NitroVerif.C07
